@@ -368,82 +368,42 @@ func runC15(c *Ctx) {
 		c.Check("C15.G1", "verifyECSignature:digest-of-row-hash", okH, vec.Pos(), "ecdsa.Verify receives the digest computed with the hash of the curve's table row")
 	}
 	if sp := c.Fn("util/signutil", "SignPayload"); sp != nil {
-		c.CheckGuard("C15.G1", "SignPayload:alg-required", sp, nil, &GCheck{Name: "signer.Headers().Algorithm() ok", MatchCall: func(c *Ctx, call *ssa.Call, env Env) bool {
+		// (through the headers' accessor, or by reading the "alg" member as a string in place)
+		isAlgMember := func(s string) bool { return strings.HasSuffix(s, `["alg"]`) && strings.Contains(s, ".Headers") }
+		c.CheckGuard("C15.G1", "SignPayload:alg-required", sp, nil, anyOf("the signer's headers carry a string alg", &GCheck{Name: "signer.Headers().Algorithm() ok", MatchCall: func(c *Ctx, call *ssa.Call, env Env) bool {
 			g := call.Call.StaticCallee()
 			return g != nil && g.String() == "("+modPkg+"jws.Headers).Algorithm"
-		}})
-		c.CheckGuard("C15.G1", "SignPayload:alg-non-empty", sp, nil, cmpReject(`alg == "" rejected`, token.EQL, func(s string) bool { return strings.HasSuffix(s, ")#0") && strings.Contains(s, ".Algorithm(") }, pathIs(`""`)))
+		}}, &GCheck{Name: `headers["alg"].(string) ok`, MatchOK: func(c *Ctx, v ssa.Value, env Env) bool {
+			ta, ok := v.(*ssa.TypeAssert)
+			return ok && isStringType(ta.AssertedType) && isAlgMember(c.Path(ta.X, env))
+		}}))
+		c.CheckGuard("C15.G1", "SignPayload:alg-non-empty", sp, nil, cmpReject(`alg == "" rejected`, token.EQL, func(s string) bool {
+			if strings.HasSuffix(s, ")#0") && strings.Contains(s, ".Algorithm(") {
+				return true
+			}
+			return strings.HasSuffix(s, ".(string)#0") && isAlgMember(strings.TrimSuffix(s, ".(string)#0"))
+		}, pathIs(`""`)))
 	}
-	c.Min("C15.G1", 9)
+	// "fails under any other key … unsupported key types are refused": VerifySignature says yes only behind the true
+	// result of ecdsa.Verify / ed25519.Verify — a key-type arm that does nothing (an empty case does not fall through to
+	// the refusing default) accepts every signature
+	if vs := c.Fn("jwsutil", "VerifySignature"); vs != nil {
+		ecV2 := c.ExtFn("crypto/ecdsa", "Verify")
+		edV2 := c.ExtFn("crypto/ed25519", "Verify")
+		if ecV2 != nil && edV2 != nil {
+			c.CheckGuard("C15.G1", "VerifySignature:accepts-only-behind-Verify", vs, nil, &GCheck{Name: "ecdsa.Verify / ed25519.Verify == true", MatchCall: func(c *Ctx, call *ssa.Call, env Env) bool {
+				g := call.Call.StaticCallee()
+				return g == ecV2 || g == edV2
+			}})
+		} else {
+			c.Unresolved("C15.G1", "crypto/ecdsa.Verify / crypto/ed25519.Verify")
+		}
+	} else {
+		c.Unresolved("C15.G1", "jwsutil.VerifySignature")
+	}
+	c.Min("C15.G1", 10)
 
-	// ---- K2 the protected header is decoded by a decoder that refuses duplicate member names. The signature is
-	// verified over the re-serialised *parsed* header (C15.X2: one signingInput for both directions), so a member the
-	// decoder silently drops (encoding/json keeps the last duplicate) is header content the signature does not cover.
-	{
-		strict := false
-		// read from the library's source files (syntax only; the decoder's object() reports "duplicate key")
-		if tp := c.TPkg[joseJSONPkg]; tp != nil {
-			fset := token.NewFileSet()
-			for _, fn := range tp.GoFiles {
-				af, err := parser.ParseFile(fset, fn, nil, 0)
-				if err != nil {
-					continue
-				}
-				ast.Inspect(af, func(n ast.Node) bool {
-					if fd, ok := n.(*ast.FuncDecl); ok && fd.Body != nil {
-						ast.Inspect(fd.Body, func(m ast.Node) bool {
-							if bl, ok2 := m.(*ast.BasicLit); ok2 && bl.Kind == token.STRING && strings.Contains(bl.Value, "duplicate key") {
-								// the literal must be part of an error raised by the decoder
-								strict = true
-							}
-							return true
-						})
-						return false
-					}
-					return true
-				})
-			}
-		}
-		c.Check("C15.K2", "strict-decoder:rejects-duplicate-members", strict, 0, joseJSONPkg+" reports duplicate member names as an error (derived from the library source)")
-		hdr := c.NamedType("api/jws", "Headers")
-		if hdr == nil {
-			hdr = c.NamedTypeIn(modPkg+"jws", "Headers")
-		}
-		entries := []*ssa.Function{c.Fn("jwsutil", "ParseJWS"), c.Fn("jwsutil", "VerifyJWS")}
-		n, bad := 0, 0
-		if entries[0] != nil && entries[1] != nil {
-			for _, f := range c.reachableModuleFuncs(entries) {
-				forEachInstr(f, func(in ssa.Instruction) {
-					cl, ok := in.(*ssa.Call)
-					if !ok || cl.Call.StaticCallee() == nil || cl.Call.StaticCallee().Name() != "Unmarshal" || len(cl.Call.Args) != 2 {
-						return
-					}
-					// the decode target is a header map
-					tgt := cl.Call.Args[1]
-					if mi, isMI := tgt.(*ssa.MakeInterface); isMI {
-						tgt = mi.X
-					}
-					pt, isP := tgt.Type().Underlying().(*types.Pointer)
-					if !isP {
-						return
-					}
-					nt, isN := pt.Elem().(*types.Named)
-					if !isN || nt.Obj().Name() != "Headers" {
-						return
-					}
-					n++
-					g := cl.Call.StaticCallee()
-					if g.Pkg == nil || g.Pkg.Pkg.Path() != joseJSONPkg {
-						bad++
-						c.Check("C15.K2", "header-decoder:"+short(f.String()), false, cl.Pos(), "the JOSE header is decoded with "+g.String()+", which does not refuse duplicate member names; the verified signing input is rebuilt from the parsed header, so dropped duplicates are unsigned header content")
-					}
-				})
-			}
-		}
-		_ = hdr
-		c.Check("C15.K2", "header-decoder:strict", n > 0 && bad == 0, 0, fmt.Sprintf("%d decode(s) of a JOSE header map on the parse / verify paths, all with the duplicate-refusing decoder", n))
-	}
-	c.Min("C15.K2", 2)
+	c.strictHeaderDecoderRule()
 
 	// "verifies under the matching public JWK": the JWK the library produces for a key (fixed-width coordinates, curve
 	// marking, strict reading) is the subject of C16; those rules are part of this check as well
@@ -481,14 +441,20 @@ func runC16(c *Ctx) {
 		}
 	}
 	// the literal is built in a temporary and copied: count the helper calls directly
-	calls := callsTo(ms, nfb)
+	// (in the encoder itself, or in a constructor helper it calls — counted once per call of that helper)
 	xy := 0
-	for _, cl := range calls {
-		p0 := c.Path(cl.Call.Args[0], nil)
-		if strings.HasSuffix(p0, ".X)") || strings.HasSuffix(p0, ".Y)") {
-			xy++
-			if c.Path(cl.Call.Args[1], nil) != "32" {
-				bad++
+	for _, host := range append([]*ssa.Function{ms}, c.helpersOf(ms, 1)...) {
+		times := 1
+		if host != ms {
+			times = len(callsTo(ms, host))
+		}
+		for _, cl := range callsTo(host, nfb) {
+			p0 := c.Path(cl.Call.Args[0], nil)
+			if strings.HasSuffix(p0, ".X)") || strings.HasSuffix(p0, ".Y)") {
+				xy += times
+				if c.Path(cl.Call.Args[1], nil) != "32" {
+					bad++
+				}
 			}
 		}
 	}
@@ -549,7 +515,7 @@ func runC16(c *Ctx) {
 			}
 			recv, args = args[0], args[1:]
 		}
-		return strings.Contains(c.Path(args[0], env), "$0.X") && strings.Contains(c.Path(args[1], env), "$0.Y") && c.Path(recv, env) == "github.com/btcsuite/btcd/btcec/v2.S256()"
+		return strings.Contains(c.Path(localFieldValue(args[0]), env), "$0.X") && strings.Contains(c.Path(localFieldValue(args[1]), env), "$0.Y") && c.Path(recv, env) == "github.com/btcsuite/btcd/btcec/v2.S256()"
 	}})
 	// the key returned carries those coordinates on that curve
 	okKey := false
@@ -560,7 +526,106 @@ func runC16(c *Ctx) {
 		}
 	}
 	c.Check("C16.G1", "unmarshal:key-from-checked-coordinates", okKey, us.Pos(), "the public key is built from the checked X, Y on S256")
-	c.Min("C16.G1", 6)
+	// … and nothing else in the module builds an elliptic-curve public key from its parts: every reader of a JWK goes
+	// through the checked one (a second, "direct" decoder of the coordinates has its own idea of the width rule)
+	{
+		ok := true
+		var where []string
+		tree := map[*ssa.Function]bool{us: true}
+		for _, g := range c.reachableModuleFuncs([]*ssa.Function{us}) {
+			tree[g] = true
+		}
+		n := 0
+		for _, f := range c.Funcs {
+			pp := pkgPathOf(f)
+			if !strings.HasPrefix(pp, modPkg) || isMockPath(pp) || f.Blocks == nil {
+				continue
+			}
+			forEachInstr(f, func(in ssa.Instruction) {
+				al, isA := in.(*ssa.Alloc)
+				if !isA {
+					return
+				}
+				ts := types.TypeString(derefT(al.Type()), nil)
+				if ts != "crypto/ecdsa.PublicKey" && ts != "crypto/ecdsa.PrivateKey" {
+					return
+				}
+				n++
+				host := f
+				for host.Parent() != nil {
+					host = host.Parent()
+				}
+				if !tree[host] {
+					ok = false
+					where = append(where, short(f.String())+" at "+c.pos(al.Pos()))
+				}
+			})
+		}
+		c.Check("C16.G1", "ec-keys-built-only-by-the-checked-reader", ok && n > 0, us.Pos(), fmt.Sprintf("%d composite(s) of ecdsa.PublicKey / PrivateKey in the module, all inside the checked secp256k1 reader %v", n, where))
+	}
+	// … and every JWK text is read by the strict reader: go-jose's own JSONWebKey.UnmarshalJSON (which tolerates base64
+	// padding: one key, several accepted texts) is called by (*JWK).UnmarshalJSON, behind its strict first pass, only
+	{
+		uj := c.Method("jwsutil", "JWK", "UnmarshalJSON")
+		var bad []string
+		n := 0
+		okTree := map[*ssa.Function]bool{}
+		if uj != nil {
+			okTree[uj] = true
+			for _, g := range c.reachableModuleFuncs([]*ssa.Function{uj}) {
+				if pkgPathOf(g) == pkgPathOf(uj) && (g.Object() == nil || !g.Object().Exported()) {
+					okTree[g] = true
+				}
+			}
+		}
+		for _, f := range c.Funcs {
+			pp := pkgPathOf(f)
+			if !strings.HasPrefix(pp, modPkg) || isMockPath(pp) || f.Blocks == nil {
+				continue
+			}
+			forEachInstr(f, func(in ssa.Instruction) {
+				cl, ok := in.(*ssa.Call)
+				if !ok || cl.Call.StaticCallee() == nil {
+					return
+				}
+				// a decode into go-jose's key type: its own UnmarshalJSON, or a JSON decoder handed a *JSONWebKey
+				isJose := func(v ssa.Value) bool {
+					if mi, isMI := v.(*ssa.MakeInterface); isMI {
+						v = mi.X
+					}
+					return types.TypeString(v.Type(), nil) == "*github.com/go-jose/go-jose/v3.JSONWebKey"
+				}
+				name := cl.Call.StaticCallee().Name()
+				hit := false
+				if name == "UnmarshalJSON" || name == "Unmarshal" || name == "Decode" {
+					for _, a := range cl.Call.Args {
+						hit = hit || isJose(a)
+					}
+				}
+				if !hit {
+					return
+				}
+				n++
+				host := f
+				for host.Parent() != nil {
+					host = host.Parent()
+				}
+				if !okTree[host] {
+					bad = append(bad, short(f.String())+" at "+c.pos(cl.Pos()))
+				}
+			})
+		}
+		c.Check("C16.G1", "jwk-texts-read-by-the-strict-reader-only", uj != nil && n > 0 && len(bad) == 0, 0, fmt.Sprintf("%d decode(s) into go-jose's JSONWebKey in the module, all inside (*jwsutil.JWK).UnmarshalJSON", n), bad...)
+	}
+	// the public JWK type's own check (called by the request builders and by the parser before the key is read) refuses
+	// a key only for a missing kty, n, e, crv or x: a further demand — a coordinate "length" computed from the curve —
+	// refuses keys the library itself produces
+	if jv := c.Method("jws", "JWK", "Validate"); jv != nil {
+		c.jwkValidateRules("C16.G1", "jws.JWK.Validate", jv, func(m string) pathPred { return pathIs("$0." + m) })
+	} else {
+		c.Unresolved("C16.G1", "(*jws.JWK).Validate")
+	}
+	c.Min("C16.G1", 8)
 
 	// ---- G2 closed set of rejections: a valid key must read back, so unmarshalSecp256k1 may say no only for a missing
 	// coordinate, a coordinate (or private value) of the wrong width, or a point off the curve
@@ -696,11 +761,32 @@ func runC16(c *Ctx) {
 	} else {
 		c.Analysed(gp)
 		tset := map[string]bool{}
+		// the classification of the key may sit in an unexported helper that is handed the key
+		type frameT struct {
+			fn  *ssa.Function
+			env Env
+		}
+		frames := []frameT{{gp, nil}}
 		forEachInstr(gp, func(in ssa.Instruction) {
-			if ta, ok := in.(*ssa.TypeAssert); ok && c.Path(ta.X, nil) == "$0" {
-				tset[typeShort(ta.AssertedType)] = true
+			if cl, ok := in.(*ssa.Call); ok {
+				if g := cl.Call.StaticCallee(); g != nil && inModule(g) && g.Blocks != nil && pkgPathOf(g) == pkgPathOf(gp) && g.Object() != nil && !g.Object().Exported() {
+					for _, a := range cl.Call.Args {
+						if c.Path(a, nil) == "$0" {
+							frames = append(frames, frameT{g, c.calleeEnv(&cl.Call, g, nil)})
+							break
+						}
+					}
+				}
 			}
 		})
+		for _, fr := range frames {
+			fr := fr
+			forEachInstr(fr.fn, func(in ssa.Instruction) {
+				if ta, ok := in.(*ssa.TypeAssert); ok && c.Path(ta.X, fr.env) == "$0" {
+					tset[typeShort(ta.AssertedType)] = true
+				}
+			})
+		}
 		var ts []string
 		for t := range tset {
 			ts = append(ts, t)
@@ -716,17 +802,19 @@ func runC16(c *Ctx) {
 		// true edge of curve == btcec.S256() (directly in that branch, or through locals merged by a φ whose other
 		// edges are the empty string)
 		var s256 []*ssa.BasicBlock
-		forEachInstr(gp, func(in ssa.Instruction) {
-			bo, ok := in.(*ssa.BinOp)
-			if !ok || bo.Op != token.EQL || !strings.HasSuffix(c.Path(bo.X, nil), ".Curve") || c.Path(bo.Y, nil) != "github.com/btcsuite/btcd/btcec/v2.S256()" {
-				return
-			}
-			for _, e := range boolEdges(bo, true) {
-				if len(e.to.Preds) == 1 {
-					s256 = append(s256, e.to)
+		for _, fr := range frames {
+			forEachInstr(fr.fn, func(in ssa.Instruction) {
+				bo, ok := in.(*ssa.BinOp)
+				if !ok || bo.Op != token.EQL || !strings.HasSuffix(c.Path(bo.X, nil), ".Curve") || c.Path(bo.Y, nil) != "github.com/btcsuite/btcd/btcec/v2.S256()" {
+					return
 				}
-			}
-		})
+				for _, e := range boolEdges(bo, true) {
+					if len(e.to.Preds) == 1 {
+						s256 = append(s256, e.to)
+					}
+				}
+			})
+		}
 		under := func(b *ssa.BasicBlock) bool {
 			for _, t := range s256 {
 				if t.Dominates(b) {
@@ -751,6 +839,30 @@ func runC16(c *Ctx) {
 				marks, ok := false, true
 				for i, e := range x.Edges {
 					m, o := onlyUnder(e, x.Block().Preds[i], want, d+1)
+					marks = marks || m
+					ok = ok && o
+				}
+				return marks, ok
+			case *ssa.Extract:
+				// what the classifying helper hands back: on each of its exits
+				cl, isC := x.Tuple.(*ssa.Call)
+				if !isC || d > 3 {
+					return false, false
+				}
+				g := cl.Call.StaticCallee()
+				isFrame := false
+				for _, fr := range frames[1:] {
+					isFrame = isFrame || fr.fn == g
+				}
+				if !isFrame {
+					return false, false
+				}
+				marks, ok := false, true
+				for _, r := range returnsOf(g) {
+					if x.Index >= len(r.Results) {
+						return false, false
+					}
+					m, o := onlyUnder(returnedValue(r, x.Index), r.Block(), want, d+1)
 					marks = marks || m
 					ok = ok && o
 				}
@@ -823,7 +935,12 @@ func runC16(c *Ctx) {
 		jwkT := c.NamedType("jwsutil", "jsonWebKey")
 		n, okLab := 0, true
 		var got []string
-		forEachInstr(ms, func(in ssa.Instruction) {
+		each := func(fn func(in ssa.Instruction)) {
+			for _, host := range append([]*ssa.Function{ms}, c.helpersOf(ms, 1)...) {
+				forEachInstr(host, fn)
+			}
+		}
+		each(func(in ssa.Instruction) {
 			st, ok := in.(*ssa.Store)
 			if !ok {
 				return
@@ -921,6 +1038,10 @@ func runC16(c *Ctx) {
 	}
 	c.Min("C16.T1", 8)
 	c.Assume("go-jose encodes NIST and Ed25519 keys at full width; btcec.S256 parameters")
+	// "the JWK carries the right key type and curve name": which curve names denote a key is the verifier's table of
+	// names (exact, one per curve) — a name matched loosely there makes one key readable under several JWK texts, each
+	// with its own commitment
+	c.signerVerifierTables("C15.X1")
 }
 
 // edgeConds: the canonical conditions that hold when control passes from block p to its successor b.
@@ -1308,6 +1429,51 @@ func (c *Ctx) signerVerifierTables(rule string) bool {
 			}
 		}
 		c.Check(rule, "signer:digest-of-curve-hash", okH, sign.Pos(), "ecdsa.Sign receives the digest computed with getHasher(key curve)")
+		// r and s go into the signature as ecdsa.Sign returned them: read as bytes and padded, nothing else (an s
+		// "normalised" against the wrong modulus no longer verifies)
+		{
+			var bad []string
+			n := 0
+			for _, cl := range findCalls(sign, func(cl *ssa.Call) bool {
+				g := cl.Call.StaticCallee()
+				return g != nil && g.String() == "crypto/ecdsa.Sign"
+			}) {
+				for ex := 0; ex < 2; ex++ {
+					v := extractOf(cl, ex)
+					if v == nil || v.Referrers() == nil {
+						bad = append(bad, fmt.Sprintf("result %d of ecdsa.Sign is not used", ex))
+						continue
+					}
+					n++
+					for _, r := range *v.Referrers() {
+						switch y := r.(type) {
+						case *ssa.DebugRef:
+						case *ssa.Call:
+							g := y.Call.StaticCallee()
+							okUse := false
+							if g != nil {
+								switch g.String() {
+								case "(*math/big.Int).Bytes", "(*math/big.Int).FillBytes", "(*math/big.Int).BitLen":
+									okUse = true
+								}
+								if inModule(g) && (g == cp || c.leftPads(g)) {
+									okUse = true
+								}
+								if _, _, into := c.alignsInto(g); into {
+									okUse = true
+								}
+							}
+							if !okUse {
+								bad = append(bad, c.pos(y.Pos())+": handed to "+calleeName(&y.Call))
+							}
+						default:
+							bad = append(bad, c.pos(instrPos(r))+": "+r.String())
+						}
+					}
+				}
+			}
+			c.Check(rule, "signer:r-s-as-signed", n == 2 && len(bad) == 0, sign.Pos(), "the two halves of the signature are ecdsa.Sign's r and s, read as bytes and padded", bad...)
+		}
 		if cp != nil {
 			if _, _, into := c.alignsInto(cp); into {
 				c.Check(rule, "copyPadded", true, cp.Pos(), "copyPadded right-aligns its source in the destination it is handed (a zeroed part of the signature buffer)")
@@ -1438,4 +1604,117 @@ func (c *Ctx) alignsInto(g *ssa.Function) (destIdx, srcIdx int, ok bool) {
 		destIdx, srcIdx, found = di, si, true
 	})
 	return destIdx, srcIdx, found
+}
+
+// localFieldValue: v reads a field of a local struct (a composite literal kept in a cell) that is stored exactly once,
+// before the read: the value stored (v itself otherwise).
+func localFieldValue(v ssa.Value) ssa.Value {
+	ld, ok := v.(*ssa.UnOp)
+	if !ok || ld.Op != token.MUL {
+		return v
+	}
+	fa, ok := ld.X.(*ssa.FieldAddr)
+	if !ok {
+		return v
+	}
+	cell, ok := fa.X.(*ssa.Alloc)
+	if !ok || cell.Referrers() == nil {
+		return v
+	}
+	var st *ssa.Store
+	n := 0
+	for _, r := range *cell.Referrers() {
+		switch y := r.(type) {
+		case *ssa.FieldAddr:
+			if y.Field != fa.Field || y.Referrers() == nil {
+				continue
+			}
+			for _, rr := range *y.Referrers() {
+				if w, isS := rr.(*ssa.Store); isS && w.Addr == ssa.Value(y) {
+					n++
+					st = w
+				}
+			}
+		case *ssa.Store:
+			if y.Addr == ssa.Value(cell) {
+				return v // written as a whole
+			}
+		}
+	}
+	if n == 1 && instrDominates(st, ld) {
+		return st.Val
+	}
+	return v
+}
+
+// strictHeaderDecoderRule (C15.K2; also run by C07: "only alg/kid protected headers" is decided on the decoded map).
+func (c *Ctx) strictHeaderDecoderRule() {
+	// ---- K2 the protected header is decoded by a decoder that refuses duplicate member names. The signature is
+	// verified over the re-serialised *parsed* header (C15.X2: one signingInput for both directions), so a member the
+	// decoder silently drops (encoding/json keeps the last duplicate) is header content the signature does not cover.
+	{
+		strict := false
+		// read from the library's source files (syntax only; the decoder's object() reports "duplicate key")
+		if tp := c.TPkg[joseJSONPkg]; tp != nil {
+			fset := token.NewFileSet()
+			for _, fn := range tp.GoFiles {
+				af, err := parser.ParseFile(fset, fn, nil, 0)
+				if err != nil {
+					continue
+				}
+				ast.Inspect(af, func(n ast.Node) bool {
+					if fd, ok := n.(*ast.FuncDecl); ok && fd.Body != nil {
+						ast.Inspect(fd.Body, func(m ast.Node) bool {
+							if bl, ok2 := m.(*ast.BasicLit); ok2 && bl.Kind == token.STRING && strings.Contains(bl.Value, "duplicate key") {
+								// the literal must be part of an error raised by the decoder
+								strict = true
+							}
+							return true
+						})
+						return false
+					}
+					return true
+				})
+			}
+		}
+		c.Check("C15.K2", "strict-decoder:rejects-duplicate-members", strict, 0, joseJSONPkg+" reports duplicate member names as an error (derived from the library source)")
+		hdr := c.NamedType("api/jws", "Headers")
+		if hdr == nil {
+			hdr = c.NamedTypeIn(modPkg+"jws", "Headers")
+		}
+		entries := []*ssa.Function{c.Fn("jwsutil", "ParseJWS"), c.Fn("jwsutil", "VerifyJWS")}
+		n, bad := 0, 0
+		if entries[0] != nil && entries[1] != nil {
+			for _, f := range c.reachableModuleFuncs(entries) {
+				forEachInstr(f, func(in ssa.Instruction) {
+					cl, ok := in.(*ssa.Call)
+					if !ok || cl.Call.StaticCallee() == nil || cl.Call.StaticCallee().Name() != "Unmarshal" || len(cl.Call.Args) != 2 {
+						return
+					}
+					// the decode target is a header map
+					tgt := cl.Call.Args[1]
+					if mi, isMI := tgt.(*ssa.MakeInterface); isMI {
+						tgt = mi.X
+					}
+					pt, isP := tgt.Type().Underlying().(*types.Pointer)
+					if !isP {
+						return
+					}
+					nt, isN := pt.Elem().(*types.Named)
+					if !isN || nt.Obj().Name() != "Headers" {
+						return
+					}
+					n++
+					g := cl.Call.StaticCallee()
+					if g.Pkg == nil || g.Pkg.Pkg.Path() != joseJSONPkg {
+						bad++
+						c.Check("C15.K2", "header-decoder:"+short(f.String()), false, cl.Pos(), "the JOSE header is decoded with "+g.String()+", which does not refuse duplicate member names; the verified signing input is rebuilt from the parsed header, so dropped duplicates are unsigned header content")
+					}
+				})
+			}
+		}
+		_ = hdr
+		c.Check("C15.K2", "header-decoder:strict", n > 0 && bad == 0, 0, fmt.Sprintf("%d decode(s) of a JOSE header map on the parse / verify paths, all with the duplicate-refusing decoder", n))
+	}
+	c.Min("C15.K2", 2)
 }
